@@ -529,7 +529,6 @@ pub fn exec(sess: &mut SyncSession, toks: &[&str]) -> Vec<String> {
     }
 }
 
-/// Build a schedule by driving a scratch `World`, then route the finished line through `exec_line`.
 /// A PURE two-peer session (the hypotheses of C20): divergent histories with shared ancestors,
 /// one fresh connection, then edits / generates / deliveries in any interleaving, then the bound
 /// step and the quiesce step.  Forced false positives: 0, 5, 50 or 100 % of the changes.
@@ -600,6 +599,7 @@ fn generate_pure(r: &mut Rng, sess: &mut Session, out: &mut Out) {
     exec_line(sess, &format!("sync.run 2 {}", steps.join(";")), out);
 }
 
+/// Build a schedule by driving a scratch `World`, then route the finished line through `exec_line`.
 pub fn generate(r: &mut Rng, opts: &BTreeMap<String, String>, sess: &mut Session, out: &mut Out) {
     // every fourth case is a pure C20 session (decided by the case index, so the other cases of a
     // seed are exactly what they were before this generator existed)
